@@ -381,6 +381,8 @@ def run(prop, tier, seed, replay=None):
     for t in ths + pths:
         t.join()
     gp0 = probes.get('orphan')
+    if gp0 is not None and gp0.result is None and crash_analysis(ck, gp0, None, True, cands=[probe, ghost]):
+        return ck.finish()
     pv = (gp0.result.get('violations') or []) if gp0 is not None and gp0.result else []
     ghost_v = [v for v in pv if v['path']['name'] == 'late-data-probe' and 'surfaced 2 times' in v['detail']]
     if gp0 is None or gp0.result is None or gp0.result.get('paths', 0) != 2 or len(pv) != len(ghost_v) \
@@ -549,19 +551,21 @@ def evaluate(ck, r, listed, known, had_witness):
         ck.notes.append('the listed known finding %s no longer reproduces on this tree' % SLUG)
 
 
-def crash_analysis(ck, g, wd, listed):
-    """the test process died: if the library panicked, find the history that does it (journals of the in-flight paths)"""
+def crash_analysis(ck, g, wd, listed, cands=None):
+    """the test process died: if the library panicked, find the history that does it (journals of the in-flight paths,
+    or the given explicit paths)"""
     if 'panic:' not in g.out and 'fatal error:' not in g.out:
         return False
     m = re.search(r'(panic: .*|fatal error: .*)', g.out)
     what = m.group(1)[:300] if m else 'panic'
     import glob
-    cands = []
-    for f in sorted(glob.glob(os.path.join(wd, 'nl_journal_*.json'))):
-        try:
-            cands.append(json.load(open(f)))
-        except Exception:
-            pass
+    if cands is None:
+        cands = []
+        for f in sorted(glob.glob(os.path.join(wd, 'nl_journal_*.json'))):
+            try:
+                cands.append(json.load(open(f)))
+            except Exception:
+                pass
     for p in cands:
         for attempt in range(2):
             job = {'graphs': [], 'paths': [p], 'seed': ck.seed + attempt, 'workers': 1, 'budget_ms': 60000, 'known': listed,
@@ -592,8 +596,12 @@ def do_replay(ck, path, listed):
             ck.inconc('harness produced no result: ' + g.out[-800:])
         return ck.finish()
     r = g.result
-    ck.add('states', 0)
-    ck.add('transitions', 0)
+    # the design verdict that goes with a replay: the smallest configuration, checked in this run
+    tr = tlc.run('NetListener', 'mc.cfg', timeout=300, workers=TLC_WORKERS, extra_files={'mc.cfg': gcfg(QUICK_GRAPHS[0])})
+    ck.add('states', tr.distinct)
+    ck.add('transitions', tr.generated)
+    ck.cov['tlc_configs'] = ['NetListener Sync %s: %d distinct states, %d generated (%s)' %
+                             (QUICK_GRAPHS[0]['name'], tr.distinct, tr.generated, 'ok' if tr.ok else (tr.violation or 'not finished'))]
     ck.add('traces_validated_against_impl', r['conforming'])
     ck.sample({'replayed': [s.get('label') for s in p['steps']]})
     for v in r.get('violations') or []:
